@@ -69,6 +69,8 @@ pub fn feat_classes(out: &mut CaseOut, f: &Feats) {
     out.class_if(f.declares >= 2, "declares>=2");
     out.class_if(f.randoms > 0, "random");
     out.class_if(f.resets > 0, "resetRandom");
+    out.class_if(f.empty_bodies > 0, "empty-loop-body");
+    out.class_if(f.empty_loop_random_bound > 0, "empty-loop-with-random-bound");
 }
 
 pub fn fact_classes(out: &mut CaseOut, t: &RiTrace) {
@@ -315,6 +317,103 @@ pub fn still_differs_with_real_call_indices(
         return true;
     }
     let map: Vec<usize> = (0..real.items.len()).map(|i| real.log_len_before.get(i).copied().unwrap_or(0)).collect();
-    let t = crate::ri::run(prog, sigs, spec, &RiOpts { call_of_item: Some(map), ..opts.clone() });
+    let mut t = crate::ri::run(prog, sigs, spec, &RiOpts { call_of_item: Some(map), ..opts.clone() });
+    excuse_malformed_answer(&mut t, real, spec);
     trace_diff(&t, real, proj).is_some()
+}
+
+/// The script's answer to one call is malformed (`deviate_at`): the item during which that call
+/// was made may be an error item where the reference, which knows nothing of layouts, has a
+/// row. Whether it must be one is C13's business; every other item is compared as usual.
+/// Returns true if an item was excused.
+pub fn excuse_malformed_answer(t: &mut RiTrace, real: &RealRun, spec: &DriverSpec) -> bool {
+    let Some((c, _)) = &spec.deviate_at else { return false };
+    for k in 0..real.items.len() {
+        let (Some(b), Some(a)) = (real.log_len_before.get(k), real.log_len_before.get(k + 1)) else { break };
+        if *b <= *c && *c < *a {
+            if matches!(real.items[k], RealItem::RuntimeErr(_)) && matches!(t.items.get(k), Some(RiItem::Row(_))) {
+                t.items[k] = RiItem::Hazard { hazard: crate::ri::Hazard::Unresolved("malformed driver answer".into()), after_call: true };
+                return true;
+            }
+            break;
+        }
+    }
+    false
+}
+
+
+// ---------------------------------------------------------------------------------------------
+// several iterators over one test, stepped by a schedule
+
+fn interleave_with<D: HasCore>(
+    tc: &digital_test_runner::TestCase,
+    mut drivers: Vec<D>,
+    sched: &[usize],
+    seed: u64,
+    cap: usize,
+) -> Result<Vec<(Vec<RealItem>, bool)>, PanicSig> {
+    let n = drivers.len();
+    digital_test_runner::verif_hooks::set_seed_override(Some(seed));
+    digital_test_runner::verif_hooks::set_fuel(Some(DEFAULT_FUEL));
+    digital_test_runner::verif_hooks::set_deadline(Some(std::time::Instant::now() + std::time::Duration::from_millis(2 * RUN_DEADLINE_MS)));
+    let mut got: Vec<(Vec<RealItem>, bool)> = vec![(vec![], false); n];
+    let res = (|| {
+        let its = guarded(|| drivers.iter_mut().map(|d| tc.try_iter(d)).collect::<Vec<_>>())?;
+        let mut live = vec![];
+        for (i, it) in its.into_iter().enumerate() {
+            match it {
+                Ok(it) => live.push(Some(it)),
+                Err(e) => {
+                    got[i].0.push(iter_err(&e, |d| d.id));
+                    got[i].1 = true;
+                    live.push(None);
+                }
+            }
+        }
+        for step in sched {
+            let i = *step % n;
+            if got[i].1 || got[i].0.len() >= cap {
+                continue;
+            }
+            let Some(it) = live[i].as_mut() else { continue };
+            match guarded(|| it.next().map(|r| r.map(|row| own_row(&row)))) {
+                Err(p) => {
+                    got[i].0.push(RealItem::Panic(p));
+                    got[i].1 = true;
+                }
+                Ok(None) => got[i].1 = true,
+                Ok(Some(Ok(r))) => got[i].0.push(RealItem::Row(r)),
+                Ok(Some(Err(e))) => {
+                    got[i].0.push(iter_err(&e, |d| d.id));
+                    got[i].1 = true;
+                }
+            }
+        }
+        drop(live);
+        Ok(())
+    })();
+    let _ = digital_test_runner::verif_hooks::take_log();
+    digital_test_runner::verif_hooks::set_seed_override(None);
+    digital_test_runner::verif_hooks::set_fuel(None);
+    digital_test_runner::verif_hooks::set_deadline(None);
+    res.map(|()| got)
+}
+
+/// `n` iterators over one test, each with its own identically scripted driver and the same
+/// seed, stepped in the order `sched` says (an iterator stops at its first error item). Per
+/// iterator: the items it yielded and whether it is finished (None, error or panic seen).
+pub fn run_interleaved(
+    tc: &digital_test_runner::TestCase,
+    sigs: &[Sig],
+    spec: &DriverSpec,
+    n: usize,
+    sched: &[usize],
+    seed: u64,
+    cap: usize,
+) -> Result<Vec<(Vec<RealItem>, bool)>, PanicSig> {
+    if spec.override_write {
+        interleave_with(tc, (0..n).map(|_| Overriding(Core::new(spec.clone(), sigs))).collect(), sched, seed, cap)
+    } else {
+        interleave_with(tc, (0..n).map(|_| Defaulting(Core::new(spec.clone(), sigs))).collect(), sched, seed, cap)
+    }
 }
